@@ -59,6 +59,9 @@ DSPEC = {   # letter -> molecule name, start atoms, end atoms
     'T': ('TMOL', _atoms('K', 'TCG', 2), None),                 # start topology only
     'X': ('XMOL', _atoms('L', 'XCG', 2), _atoms('M', 'XAA', 4)),  # not in the system
     'W': ('W', [('W', 'W', 1)], None),                          # solvent, no files
+    # start topology whose residue signature (name, size) equals P's but whose atom names differ:
+    # it matches no molecule of the system and must not disturb the discovery of P
+    'Z': ('ZMOL', _atoms('Z', 'PCG', 2), None),
 }
 DISCOVERABLE = ('P', 'Q', 'R')
 SYSTEM_SEQ = ('P', 'W', 'Q', 'R', 'T', 'P', 'Q', 'W', 'R', 'T', 'W')
@@ -67,7 +70,7 @@ TRUTH = {DSPEC[s][0]: {'top_CG': f'{s}_cg.itp', 'top_AA': f'{s}_aa.itp', 'coor_A
 VARIANTS = {
     # every candidate a user would get from `--auto dir/*`
     'B': ['P_aa.gro', 'P_aa.itp', 'P_cg.itp', 'P_one_cg.gro', 'Q_aa.gro', 'Q_aa.itp', 'Q_cg.itp',
-          'R_aa.gro', 'R_aa.itp', 'R_cg.itp', 'T_cg.itp', 'X_aa.gro', 'X_aa.itp', 'X_cg.itp',
+          'R_aa.gro', 'R_aa.itp', 'R_cg.itp', 'T_cg.itp', 'X_aa.gro', 'X_aa.itp', 'X_cg.itp', 'Z_cg.itp',
           'bad.gro', 'notes.txt', 'sys.gro'],
     # six files: one species, an orphan coordinate file, the start-only species, a malformed file
     'S': ['P_aa.gro', 'P_aa.itp', 'P_cg.itp', 'Q_aa.gro', 'T_cg.itp', 'bad.gro'],
@@ -115,7 +118,7 @@ def write_directory(d, seed, bad='count_too_big'):
     recs, resid, aid = [], 0, 0
     for k, s in enumerate(SYSTEM_SEQ):
         cg = DSPEC[s][1]
-        pts = generic_points(len(cg), seed, tag=320 + 'PQRTXW'.index(s)) * 0.4 + \
+        pts = generic_points(len(cg), seed, tag=320 + 'PQRTXWZ'.index(s)) * 0.4 + \
             np.array([0.8 + 0.55 * k, 1.1 + 0.31 * k, 0.9 + 0.43 * k])
         last = None
         for (an, rn, ri), p in zip(cg, pts):
@@ -373,7 +376,7 @@ class C20(Check):
         chunk_cost = 200 if thorough else 40
         self.bounds = {
             'differential': {'species_lists': [list(x) for x in SPECIES_LISTS], 'scales': ['absent', 0.3, 1.0],
-                             'outputs': ['-o', 'default'] + (['default_relative_cwd'] if thorough else []),
+                             'outputs': ['-o absolute', 'default', '-o relative (cwd is not the input folder)'] + (['default_relative_cwd'] if thorough else []),
                              'numpy_seeds': [0, 1] if thorough else [0], 'steps_factor': STEPS},
             'set_all_permutations_up_to': kmax, 'set_transpositions_beyond': 2, 'max_deviations': max_dev,
             'listing_all_permutations_up_to_files': 6,
@@ -381,11 +384,14 @@ class C20(Check):
             'listing_set_models': ['interpreter set (order recorded)', 'insertion-ordered set'],
             'malformed_coordinate_kinds': list(BAD_KINDS),
             'explicit_subsets': 8, 'explicit_x_excluded': 27,
+            'explicit_files_spelled_differently_from_candidates': "'./name' vs 'name', every non-empty explicit subset",
+            'distractors': ['X (species not in the system)', 'T (start topology only)', 'Z (start topology with the residue '
+                            'signature of P and other atom names)', 'single-molecule start .gro', 'malformed .gro', '.txt'],
             'hash_seeds': [0, 1, 2] if thorough else [],
         }
         u = []
         # (a)
-        outs = ['given', 'default'] + (['default_cwd'] if thorough else [])
+        outs = ['given', 'default', 'given_rel'] + (['default_cwd'] if thorough else [])
         for sp in SPECIES_LISTS:
             for sc in SCALES_A:
                 for o in outs:
@@ -418,6 +424,13 @@ class C20(Check):
         for kind in BAD_KINDS:
             u.append({'k': 'orders', 'cases': [{'k': 'orders', 'variant': 'B', 'E': [], 'head': [0],
                                                'kmax': kmax, 'dev': 1, 'bad': kind}]})
+        # (b) explicit species named by another spelling of the same path than in the candidate list
+        for variant in ('B', 'S'):
+            sp = VARIANT_SPECIES[variant]
+            for r in range(1, len(sp) + 1):
+                for E in itertools.combinations(sp, r):
+                    u.append({'k': 'orders', 'cases': [{'k': 'orders', 'variant': variant, 'E': list(E), 'head': [0],
+                                                       'kmax': kmax, 'dev': 1, 'spell': 1}]})
         # (b) listing order, interpreter sets
         perms = math.factorial(len(VARIANTS['S']))
         for E in ([], ['P']):
@@ -436,6 +449,8 @@ class C20(Check):
                 for rr in range(len(rest) + 1):
                     for X in itertools.combinations(rest, rr):
                         cs.append({'k': 'main', 'E': list(E), 'X': list(X), 'kmax': kmax})
+                        if E:
+                            cs.append({'k': 'main', 'E': list(E), 'X': list(X), 'kmax': kmax, 'spell': 1})
                 u.append({'k': 'main', 'cases': cs})
         if thorough:
             for hs in (0, 1, 2):
@@ -472,10 +487,17 @@ class C20(Check):
                 argv += ['--mol'] + [p(f) for f in TRIPLE_A[s]]
             if case['scale'] is not None:
                 argv += ['--scale', repr(case['scale'])]
+            workdir = None
             if case['out'] == 'given':
                 expected = os.path.join(top, 'requested', 'cli_out.gro')
                 os.mkdir(os.path.dirname(expected))
                 argv += ['-o', expected]
+            elif case['out'] == 'given_rel':
+                # a relative -o is relative to the working directory, which is not the input's folder
+                workdir = os.path.join(top, 'work')
+                os.mkdir(workdir)
+                expected = os.path.join(workdir, 'rel_out.gro')
+                argv += ['-o', 'rel_out.gro']
             else:
                 expected = os.path.join(d, 'mapped_' + SYS_A)
 
@@ -486,6 +508,8 @@ class C20(Check):
             try:
                 if rel:
                     os.chdir(d)
+                elif workdir:
+                    os.chdir(workdir)
                 np.random.seed(case['npseed'])
                 with patched(Alignment, 'STEPS_FACTOR', STEPS), patched(sys, 'argv', argv), quiet_stdout():
                     cli.main()
@@ -535,11 +559,13 @@ class C20(Check):
                             f'{a[first:first + 1]} vs {b[first:first + 1]}')
 
     # -- (b) helpers ---------------------------------------------------------
+    _spell = None        # './' : explicit files are named by another spelling of the same path
+
     def _sort(self, d, sysf, variant, E, listing, owner):
         """One execution of the real sort_molecules; returns ('ok', result) | ('dup', None) | ('exc', e)."""
         import gaddlemaps._cli as cli
         files = [os.path.join(d, f) for f in listing]
-        known = [triple(d, s) for s in E]
+        known = [triple(self._spell or d, s) for s in E]
         try:
             with patched(cli, 'set', owner.cls), quiet_stdout():
                 return 'ok', cli.sort_molecules(sysf, files, known)
@@ -574,8 +600,16 @@ class C20(Check):
 
     # -- (b) iteration orders ---------------------------------------------------
     def _orders(self, case, R, seed):
+        self._spell = './' if case.get('spell') else None
+        try:
+            self._orders2(case, R, seed)
+        finally:
+            self._spell = None
+
+    def _orders2(self, case, R, seed):
         variant, E = case['variant'], case['E']
-        cls = f"orders/{variant}/explicit{len(E)}" + (f"/bad.gro={case['bad']}" if 'bad' in case else '')
+        cls = f"orders/{variant}/explicit{len(E)}" + (f"/bad.gro={case['bad']}" if 'bad' in case else '') + \
+            ('/explicit-spelled-differently' if case.get('spell') else '')
         states = set()
         seen = set()
         with scratch_cwd(seed, case.get('bad', 'count_too_big')) as (d, sysf):
@@ -672,7 +706,7 @@ class C20(Check):
                                        case['kmax'])
                 argv = ['gaddlemaps', sysf]
                 for s in E:
-                    argv += ['--mol'] + triple(d, s)
+                    argv += ['--mol'] + triple('./' if case.get('spell') else d, s)
                 argv += ['--auto'] + listing
                 if X:
                     argv += ['--exclude'] + [DSPEC[s][0] for s in X]
@@ -689,7 +723,7 @@ class C20(Check):
                         cli.main()
                 except (Exception, SystemExit) as e:
                     err = e
-                cls = f'main/explicit{len(E)}/excluded{len(X)}'
+                cls = f'main/explicit{len(E)}/excluded{len(X)}' + ('/spelled-differently' if case.get('spell') else '')
                 R.traces += 1
                 R.states += 1
                 R.transitions += len(owner.log)
